@@ -141,11 +141,11 @@ impl Monitor for C17 {
         let np = c17_pins().len() as u64;
         let mut v = split_chunks("pin", 0, np, np, 1);
         let n = match tier {
-            Tier::Quick => 8_000,
-            Tier::Thorough => 100_000,
+            Tier::Quick => 30_000,
+            Tier::Thorough => 300_000,
         };
         for k in ["superchip", "ram3e", "ram3ep"] {
-            v.extend(split_chunks(k, seed_offset(seed, &format!("C17{}", k), 100_000), n, 100_000, 150));
+            v.extend(split_chunks(k, seed_offset(seed, &format!("C17{}", k), 300_000), n, 300_000, 150));
         }
         v
     }
